@@ -290,6 +290,27 @@ func runC11(c *core.Ctx) {
 			c11Check(c, pool, e.name, cfg.Spec{Only: []string{}}, cfg.Spec{Only: []string{e.name}}, x)
 		}
 	}
+	// 1b. wide-character documents for the non-CJK extensions on top of a CJK base: East Asian line-break handling looks at the
+	// characters around a soft break, so anything another extension does to the text nodes there (flushing at spaces,
+	// at trigger characters) must not show
+	cjkTok := []string{"日本", "語", "あ", "漢字", "、", "。", "「", "」", "ア", "한", "a", "b", " ", " ", "  ", "\n", "\n", " \n", "  \n", "\\\n", "*", "**", "`", "(", ")", "!", "#", "1", "x y"}
+	n1b := c.PerShard(c.N(90000, 3000000))
+	for i := 0; i < n1b; i++ {
+		d := wl.SoupFrom(r, cjkTok, 2+r.Intn(12))
+		e := c11Exts[r.Intn(7)] // the seven non-CJK extensions
+		x := e.strip(d)
+		if c11HasTrigger(e.name, x) {
+			continue
+		}
+		cj := []string{cfg.SCJKSimple, cfg.SCJKCSS3, cfg.SCJKEsc, cfg.SCJKSimpleNoEsc}[r.Intn(4)]
+		a := cfg.Spec{Only: []string{cj}, Unsafe: r.Intn(2) == 0}
+		b := cfg.Spec{Only: []string{cj, e.name}, Unsafe: a.Unsafe}
+		if r.Intn(2) == 0 {
+			b.Only = []string{e.name, cj}
+		}
+		c11Check(c, pool, e.name, a, b, x)
+		c.Count("wide_character_documents_on_a_cjk_base", 1)
+	}
 	// 2. random documents
 	n2 := c.PerShard(c.N(700000, 30000000))
 	for i := 0; i < n2; i++ {
